@@ -82,7 +82,7 @@ def bigger(rng, pd):
 
 def plan(tier, seed, rng):
     quick = tier == "quick"
-    enum_cases, rc_cases, hist_cases = [], [], []
+    enum_cases, rc_cases, hist_cases, fx_cases = [], [], [], []
     used = set()
     def add(lst, c):
         if c is None or c.id in used: return False
@@ -183,6 +183,27 @@ def plan(tier, seed, rng):
                 baxes = [fixed_axis(rng, Nb, rank, n=a.extent()) for Nb, a in zip(bd, axes)]
             return wcase("f", t, pk, [o], [k], 1, 1, pd, axes, bd=bd, baxes=baxes)
         uniq(rc_cases, mk)
+    # ---- fx: compile-time destinations of rank 1-3, every operator x every right-hand-side kind on one instance (histories of 1..8 writes).
+    # The fixed views spell out one loop nest per (operator, rhs kind, step class); a single-operator instance reaches 1 of ~30.
+    for t in "fdil":
+        for rank in (1, 2, 2, 3) if quick else (1, 1, 2, 2, 2, 2, 3, 3):
+            def mk():
+                if rank == 1: pd = [rng.choice([7, 9, 12, 16, 17, 23])]
+                elif rank == 2: pd = [rng.choice([4, 5, 6, 7, 9]), rng.choice([8, 9, 11, 12, 16, 17])]
+                else: pd = shape(3, 500, lastset=(8, 9, 12, 16), pool=(2, 3, 4, 5))
+                axes = []
+                for N in pd:
+                    c = rng.random()
+                    if c < 0.15: axes.append(all_axis(N))
+                    elif c < 0.7 and N >= 4: axes.append(fixed_axis(rng, N, rank, n=rng.randint(2, max(2, (N + 1) // 2))))   # room for a non-unit step
+                    else: axes.append(fixed_axis(rng, N, rank))
+                pk = rng.choice([0, 0, 1])
+                kinds = [K_SCALAR, K_TENSOR, K_VIEW, K_EXPR, K_TEXPR, K_ELEM]
+                if rank == 2 or (rank == 1 and t in "fd"): kinds.append(K_EVAL)
+                kinds = [k for k in kinds if all(kind_ok(t, rank, k, o, pk, axes) for o in range(5))]
+                ops = [0, 1, 2, 3, 4] if t != "l" else [0, 1, 2, 4]
+                return wcase("fx", t, pk, ops, kinds, 1, 8, pd, axes, bd=bigger(rng, pd))
+            uniq(fx_cases, mk)
     # ---- m: mixed destination argument lists
     two = [("f", "s"), ("s", "f"), ("s", "i"), ("i", "s"), ("f", "i"), ("i", "f"), ("A", "s"), ("A", "i"), ("i", "A"), ("s", "A")]
     deckm = Deck([K_SCALAR, K_TENSOR, K_VIEW, K_EXPR, K_TEXPR])
@@ -239,6 +260,8 @@ def plan(tier, seed, rng):
             units.append(Unit("C05", cfg, ch, ["props/c05.h"], mode="enum", enum_budget=3000000, poison=32768, timeout=2400))
         for ch in chunks(rc_cases, per):
             units.append(Unit("C05", cfg, ch, ["props/c05.h"], mode="rc", max_success=100 if quick else 200, poison=32768, timeout=2400))
+        for ch in chunks(fx_cases, 4):
+            units.append(Unit("C05", cfg, ch, ["props/c05.h"], mode="rc", max_success=150 if quick else 400, poison=32768, timeout=2400))
         for ch in chunks(hist_cases, 6 if quick else 8):
             units.append(Unit("C05", cfg, ch, ["props/c05.h"], mode="rc", max_success=100 if quick else 300, poison=32768, timeout=2400))
     return units
